@@ -201,9 +201,8 @@ fn main() {
             }
             let starts: Vec<u64> = if t { session::seq_starts().into_iter().filter(|p| *p % 2 == 1 || *p > u64::MAX - 4 || *p < 3).collect() } else { vec![0, 255, (1 << 32) - 1, (1 << 56) - 1, u64::MAX - 3, u64::MAX - 2, u64::MAX - 1, u64::MAX] };
             go(&session::E2b { suites: session::seq_suites(false), starts, depth: if t { 4 } else { 3 }, letters: (0..12).collect(), label: "full".into() }, &cfg, &mut reports, &mut replayed);
-            if t {
-                go(&session::E2b { suites: session::seq_suites(false), starts: vec![0, u64::MAX - 2, u64::MAX - 1], depth: 5, letters: (0..12).collect(), label: "deep".into() }, &cfg, &mut reports, &mut replayed);
-            }
+            // a deeper tree from the two ends of the sequence space
+            go(&session::E2b { suites: session::seq_suites(false), starts: if t { vec![0, u64::MAX - 2, u64::MAX - 1] } else { vec![u64::MAX - 1] }, depth: if t { 5 } else { 4 }, letters: (0..12).collect(), label: "deep".into() }, &cfg, &mut reports, &mut replayed);
         }
         "C06" => go(&props::c06::C06, &cfg, &mut reports, &mut replayed),
         "C07" => go(&props::c07::C07, &cfg, &mut reports, &mut replayed),
